@@ -374,6 +374,10 @@ class APIConnection:
                 f"Error connecting to {addrs}: {last_exception}"
             ) from last_exception
 
+        if self.connection_state is CONNECTION_STATE_CLOSED:
+            # Closed while the connect was completing, do not keep the socket
+            sock.close()
+            raise ConnectionInterruptedError
         self._socket = sock
         sock.setblocking(False)
         sock.setsockopt(socket.IPPROTO_TCP, socket.TCP_NODELAY, 1)
@@ -448,6 +452,10 @@ class APIConnection:
                 sock=self._socket,
             )
 
+        if self.connection_state is CONNECTION_STATE_CLOSED:
+            # Closed while the transport was being set up, do not keep it
+            fh.close()
+            raise ConnectionInterruptedError
         # Set the frame helper right away to ensure
         # the socket gets closed if we fail to handshake
         self._frame_helper = fh
@@ -466,6 +474,7 @@ class APIConnection:
             raise HandshakeAPIError(f"Handshake failed: {err}") from err
         finally:
             handshake_handle.cancel()
+        self._raise_if_closed()
         self._set_connection_state(CONNECTION_STATE_HANDSHAKE_COMPLETE)
 
     async def _connect_hello_login(self, login: bool) -> None:
@@ -616,6 +625,16 @@ class APIConnection:
             self._set_start_connect_future()
         self._set_connection_state(CONNECTION_STATE_SOCKET_OPENED)
 
+    def _raise_if_closed(self) -> None:
+        """Raise if the connection was closed while a connect step was completing.
+
+        Closing releases the interrupt future, but when the awaited step had
+        already completed the task resumes before the interrupt is delivered
+        and the connect process would carry on with a closed connection.
+        """
+        if self.connection_state is CONNECTION_STATE_CLOSED:
+            raise ConnectionInterruptedError
+
     def _set_start_connect_future(self) -> None:
         if (
             self._start_connect_future is not None
@@ -656,6 +675,7 @@ class APIConnection:
         await self._connect_init_frame_helper()
         self._register_internal_message_handlers()
         await self._connect_hello_login(login)
+        self._raise_if_closed()
         self._async_schedule_keep_alive(self._loop.time())
 
     async def finish_connection(self, *, login: bool) -> None:
